@@ -127,6 +127,9 @@ def run(ctx, exh, sims, critical_acts, rule, assumptions, require_hist=None, not
     for cfg, kw in exh:
         kw = dict(kw)
         need = kw.pop("nonvacuous", None)
+        # Repo.tla states are large records; with -coverage and 16 workers an 8g heap ran out on an idle sandbox (vp check 3)
+        kw.setdefault("heap", os.environ.get("VERIF_TLC_HEAP") or "20g")
+        kw.setdefault("workers", min(8, vlib.default_workers()))
         res = ctx.tlc_check("Repo.tla", cfg, coverage=bool(need), **kw)
         if need:
             hc = holds_counts(res["out"], os.path.join(ctx._spec_dir(), "Repo.tla"))   # the copy TLC ran on
